@@ -38,6 +38,8 @@ pub enum MsgFault {
     Truncate { len: usize },
     /// replace the k-th number token of the JSON text
     NumReplace { index: usize, with: String },
+    /// replace the k-th number token v by a value derived from it: v+delta (saturating at 0) or v^xor
+    NumShift { index: usize, delta: i64, xor: u64 },
     /// duplicate / lose the k-th array element (document order over all arrays): a message
     /// fragment delivered twice / dropped
     ElemDup { index: usize },
@@ -164,6 +166,15 @@ pub fn apply_fault(msg: &mut Vec<u8>, f: &MsgFault) -> bool {
             let toks = number_tokens(msg);
             if let Some(&(s, e)) = toks.get(*index) {
                 msg.splice(s..e, with.bytes());
+            }
+        }
+        MsgFault::NumShift { index, delta, xor } => {
+            let toks = number_tokens(msg);
+            if let Some(&(s, e)) = toks.get(*index) {
+                if let Some(v) = std::str::from_utf8(&msg[s..e]).ok().and_then(|t| t.parse::<u64>().ok()) {
+                    let nv = if *xor != 0 { v ^ xor } else if *delta < 0 { v.saturating_sub(delta.unsigned_abs()) } else { v.saturating_add(*delta as u64) };
+                    msg.splice(s..e, nv.to_string().bytes());
+                }
             }
         }
         MsgFault::NameReplace { index, with } => {
@@ -663,7 +674,11 @@ fn draw_faults(p: &mut Prng, msg: &[u8], ch: Channel) -> Vec<MsgFault> {
             }
             3 => MsgFault::ByteDup { off: p.usize_below(len) },
             4 => MsgFault::ByteDel { off: p.usize_below(len) },
-            5 | 6 | 7 | 8 => MsgFault::NumReplace { index: p.usize_below(ntok), with: p.pick(NUMS).to_string() },
+            5 | 6 => MsgFault::NumReplace { index: p.usize_below(ntok), with: p.pick(NUMS).to_string() },
+            7 | 8 => {
+                let (delta, xor) = *p.pick(&[(1i64, 0u64), (-1, 0), (2, 0), (0, 1), (0, 32), (32, 0), (0, 64), (64, 0), (0, 16), (16, 0), (0, 128)]);
+                MsgFault::NumShift { index: p.usize_below(ntok), delta, xor }
+            }
             9 => MsgFault::ElemDup { index: p.usize_below(nelem.max(1)) },
             10 | 11 => MsgFault::ElemDrop { index: p.usize_below(nelem.max(1)) },
             12 => MsgFault::ArrayClear { index: p.usize_below(narr.max(1)) },
@@ -688,6 +703,8 @@ fn tiny_subject(p: &mut Prng) -> ProgSpec {
         "pub fn main(a: bool, b: bool) -> bool {\n    if a { b } else { !b }\n}\n",
         "pub fn main(a: bool, b: bool) -> [bool; 2] {\n    [a | b, a & b]\n}\n",
         "pub fn main(a: bool, b: bool, c: bool) -> bool {\n    (a ^ b) & (b ^ c)\n}\n",
+        "pub fn main(a: u8, b: bool) -> bool {\n    (a > 1u8) & b\n}\n",
+        "pub fn main(a: u8, b: u8, c: u8) -> bool {\n    (a & b) == c\n}\n",
     ];
     ProgSpec { name: "tiny".into(), src: p.pick(&srcs).to_string(), consts: vec![] }
 }
@@ -748,9 +765,9 @@ fn run_sweep(base: &World, acc: &mut Acc) {
             continue;
         };
         *acc.counters.entry("sweep_messages".into()).or_insert(0) += 1;
-        let mut go = |f: MsgFault, acc: &mut Acc| {
+        let mut go = |f: Vec<MsgFault>, acc: &mut Acc| {
             let mut w = b.clone();
-            w.faults = vec![f];
+            w.faults = f;
             let o = run_world(&w);
             absorb(&o, &w, acc);
         };
@@ -759,7 +776,7 @@ fn run_sweep(base: &World, acc: &mut Acc) {
             for off in s..e {
                 for digit in 0..10u8 {
                     if msg[off] != b'0' + digit {
-                        go(MsgFault::DigitSubst { off, digit }, acc);
+                        go(vec![MsgFault::DigitSubst { off, digit }], acc);
                     }
                 }
             }
@@ -768,29 +785,51 @@ fn run_sweep(base: &World, acc: &mut Acc) {
         let ntok = number_tokens(&msg).len();
         for index in 0..ntok {
             for n in NUMS {
-                go(MsgFault::NumReplace { index, with: n.to_string() }, acc);
+                go(vec![MsgFault::NumReplace { index, with: n.to_string() }], acc);
+            }
+        }
+        // complete: every number token shifted to a neighbouring / aliasing value
+        for index in 0..ntok {
+            for (delta, xor) in [(1i64, 0u64), (-1, 0), (2, 0), (0, 1), (0, 32), (32, 0), (0, 64), (64, 0)] {
+                go(vec![MsgFault::NumShift { index, delta, xor }], acc);
+            }
+        }
+        // burst damage inside one instruction record: the op name AND one of the numbers next to
+        // it (the `out` before it, the operands after it) change together
+        let toks = number_tokens(&msg);
+        for (ni, (ns, ne)) in name_occurrences(&msg).into_iter().enumerate() {
+            let before = toks.iter().rposition(|&(_, e)| e <= ns);
+            let after: Vec<usize> = toks.iter().enumerate().filter(|(_, &(s, _))| s >= ne).map(|(i, _)| i).take(2).collect();
+            let mut near: Vec<usize> = before.into_iter().collect();
+            near.extend(after);
+            for name in NAMES {
+                for &ti in &near {
+                    for n in ["0", "1", "2", "3", "4", "5", "8"] {
+                        go(vec![MsgFault::NumReplace { index: ti, with: n.to_string() }, MsgFault::NameReplace { index: ni, with: name.to_string() }], acc);
+                    }
+                }
             }
         }
         // complete: every array element duplicated / dropped, every array cleared
         let (narr, nelem) = array_census(&msg);
         for index in 0..nelem {
-            go(MsgFault::ElemDup { index }, acc);
-            go(MsgFault::ElemDrop { index }, acc);
+            go(vec![MsgFault::ElemDup { index }], acc);
+            go(vec![MsgFault::ElemDrop { index }], acc);
         }
         for index in 0..narr {
-            go(MsgFault::ArrayClear { index }, acc);
+            go(vec![MsgFault::ArrayClear { index }], acc);
         }
         // complete: every op name x every other name
         let nn = name_occurrences(&msg).len();
         for index in 0..nn {
             for n in NAMES {
-                go(MsgFault::NameReplace { index, with: n.to_string() }, acc);
+                go(vec![MsgFault::NameReplace { index, with: n.to_string() }], acc);
             }
         }
         // every byte duplicated / deleted (length-changing transport damage)
         for off in 0..msg.len() {
-            go(MsgFault::ByteDup { off }, acc);
-            go(MsgFault::ByteDel { off }, acc);
+            go(vec![MsgFault::ByteDup { off }], acc);
+            go(vec![MsgFault::ByteDel { off }], acc);
         }
     }
 }
